@@ -46,6 +46,11 @@ def gen(rng):
     return sc
 
 
+def directed_multi():
+    import directed
+    return [sc for sc in directed.all_scenarios() if len(sc["strategies"]) >= 2 and all(c.get("txlimit") is None for c in sc["clients"])]
+
+
 def sub_scenario(sc, keep):
     """the scenario with only the strategies in `keep` (list of old indices, in the new registration order)"""
     out = copy.deepcopy(sc)
@@ -78,7 +83,10 @@ def _iso_work(args):
     seed, idx = args
     import simworld
     rng = random.Random((seed * 104729 + idx) & 0xFFFFFFFF)
-    sc = gen(rng)
+    if idx < 0:
+        sc = directed_multi()[-1 - idx]       # hand-built interleavings with several strategies (run first)
+    else:
+        sc = gen(rng)
     n = len(sc["strategies"])
     res = {"idx": idx, "sc": sc, "viol": [], "n": n, "orders": 0}
     full = simworld.Run(sc).run()
@@ -367,7 +375,7 @@ def run(res, tier, seed, model_ok, search):
     n_iso, n_inj = (1500, 3000) if big else (60, 150)
     raw_data_containment(res, seed)
     live_market_book_containment(res, seed, model_ok)
-    iso = common.pmap(_iso_work, [(seed, i) for i in range(n_iso)], chunksize=2)
+    iso = common.pmap(_iso_work, [(seed, -1 - k) for k in range(len(directed_multi()))] + [(seed, i) for i in range(n_iso)], chunksize=2)
     inj = common.pmap(_inj_work, [(seed, i) for i in range(n_inj)], chunksize=4)
     for o in iso:
         res.evaluations += 1 + o["n"] + 1
